@@ -30,6 +30,32 @@ def run(prog, run):
     r5(prog, run)
 
 
+def _fe_event(f, nid):
+    n = f.nodes[nid]
+    if n['k'] != 'call':
+        return None
+    s = f.sym(n) or {}
+    if s.get('name') == 'finish' and 'QXmppPromise' in (s.get('record') or ''):
+        return 'F'
+    if s.get('name') in ('erase', 'clear') and n.get('obj') is not None and f.nodes[f.skip(n['obj'])].get('f') == REQ:
+        return 'E'
+    return None
+
+
+def _completes(prog, f, n, depth=0):
+    """the call is a promise completion / table erasure, or a member helper that performs one"""
+    s = f.sym(n) or {}
+    if s.get('name') == 'finish' and 'QXmppPromise' in (s.get('record') or ''):
+        return True
+    if s.get('name') == 'erase':
+        return True
+    if depth < 2 and not n.get('op') and (s.get('qname') or '').startswith(IQM + '::') and s.get('qname') not in (IQM + '::hasId',):
+        for g in prog.callee_fns(f, n):
+            if g.entry is not None and g.id != f.id and any(_completes(prog, g, m, depth + 1) for _, m in g.calls()):
+                return True
+    return False
+
+
 # ------------------------------------------------------------------------------------------- R1
 def r1(prog, run):
     rid = run.rule('C07.R1', 'in the request table every completion is followed by the erasure of that entry on all paths, nothing is erased '
@@ -38,10 +64,20 @@ def r1(prog, run):
     uses = [(f, i, k, h) for f, i, k, h in field_uses(prog, REQ) if k in ('write', 'addr') and h != 'constructor initialiser']
     if len(uses) < 4:
         raise AnalysisBroken('C07.R1: writers of %s not found' % REQ)
+    callers = prog.callers()
+
+    def allowed_writer(g, depth=0):
+        """one of the four functions, or a member of the manager that is called only from them (an extracted part)"""
+        if g.qname in allowed:
+            return True
+        if depth > 2 or not g.qname.startswith(IQM + '::'):
+            return False
+        cs = [top_function(prog, c) for c, _ in callers.get(g.id, [])]
+        return bool(cs) and all(allowed_writer(c, depth + 1) for c in cs)
     for f, i, k, h in uses:
         run.instance(rid)
         top = top_function(prog, f)
-        if top.qname in allowed:
+        if allowed_writer(top):
             run.ok(rid, f.loc(i), '%s in %s' % (h, top.qname.split('::')[-1]), nontrivial=False)
         else:
             run.violation(rid, 'm_requests-writer#%s#%s' % (top.qname, h.split(' ')[0]), f.loc(i), '%s modifies the outstanding-request table (%s)' % (top.display(), h))
@@ -61,6 +97,15 @@ def r1(prog, run):
                 return st + ('F',)
             if s['name'] in ('erase', 'clear') and n.get('obj') is not None and f.nodes[f.skip(n['obj'])].get('f') == REQ:
                 return st + ('E',)
+            if not n.get('op') and s.get('qname', '').startswith(IQM + '::') and f.id == fn.id:
+                # a part of the function extracted into another member: its completion / erasure effects happen here
+                for g in prog.callee_fns(f, n):
+                    if g.entry is not None and g.id != f.id and g.qname not in (IQM + '::finish', IQM + '::cancelAll', IQM + '::handleStanza'):
+                        sub = cfgx.effect_sequences(prog, g, _fe_event)
+                        if len(sub) == 1 and next(iter(sub)):
+                            return st + next(iter(sub))
+                        if len(sub) > 1:
+                            return st + ('?',)
             return None
 
         def tr_ret(f, nid, st):
@@ -105,9 +150,8 @@ def r2(prog, run):
     rid = run.rule('C07.R2', 'a stanza completes a request only if it is an <iq/> of type result/error whose id is outstanding and whose from is '
                              'empty or equal to the recorded addressee; requests need a non-empty unused id and an addressee', floor=8)
     fn = prog.fn(IQM + '::handleStanza')
-    sinks = [i for i, n in fn.calls() if (fn.sym(n) or {}).get('name') == 'finish' and 'QXmppPromise' in ((fn.sym(n) or {}).get('record') or '')]
-    sinks += [i for i, n in fn.calls() if (fn.sym(n) or {}).get('name') == 'erase']
-    if not any((fn.sym(fn.nodes[i]) or {}).get('name') == 'finish' for i in sinks):
+    sinks = [i for i, n in fn.calls() if _completes(prog, fn, n)]
+    if not sinks:
         raise AnalysisBroken('C07.R2: completion site (promise.finish) not found in handleStanza')
     TAG = 'p0.QDomElement::tagName()'
     TYPE = 'p0.QDomElement::attribute("type")'
@@ -503,17 +547,24 @@ def r4(prog, run):
     for f in scope:
         if not f.is_lambda:
             continue
-        finishes = []
-        for i, n in f.calls():
-            s = f.sym(n)
+        def finishing(g, n, depth=0):
+            s = g.sym(n)
             o = n.get('obj')
-            if not s or o is None:
-                continue
-            on = f.nodes[f.skip(o)]
-            if s['name'] == 'finish' and on['k'] == 'mem' and 'QXmppPromise<' in on.get('t', ''):
-                finishes.append(i)
-            elif s['name'] == 'finish' and s.get('record') and any(fl.get('t', '').startswith('QXmppPromise<') for fl in (prog.records.get(s['record']) or {}).get('fields', [])):
-                finishes.append(i)
+            if not s:
+                return False
+            if o is not None:
+                on = g.nodes[g.skip(o)]
+                if s['name'] == 'finish' and on['k'] == 'mem' and 'QXmppPromise<' in on.get('t', ''):
+                    return True
+                if s['name'] == 'finish' and s.get('record') and any(fl.get('t', '').startswith('QXmppPromise<') for fl in (prog.records.get(s['record']) or {}).get('fields', [])):
+                    return True
+            if depth < 2 and not n.get('op'):
+                # a helper of the same file that completes the entry it is handed (finish + erase extracted into the storage class)
+                for h in prog.callee_fns(g, n):
+                    if h.entry is not None and h.id != g.id and h.file == g.file and not h.is_lambda and any(finishing(h, m, depth + 1) for _, m in h.calls()):
+                        return True
+            return False
+        finishes = [i for i, n in f.calls() if finishing(f, n)]
         if not finishes:
             continue
         parent = prog.fns.get(f.parent_id)
